@@ -16,7 +16,7 @@ META = {
     "outside": "mask shapes above 2x2 with symbolic positions",
     "assumptions": ["mask positions symbolic (witness positions), cell mask and all other payload bits free"],
 }
-WALL_BUDGET = {"quick": 480, "thorough": 3000}
+WALL_BUDGET = {"quick": 900, "thorough": 3000}
 
 
 def jobs(tier, seed):
